@@ -336,10 +336,56 @@ def min_sentence_sets(g, cost, cm, cap=400):
 
 # ---- generation -------------------------------------------------------------------------------
 
+def cost_corpus():
+    """recursion with and without gain: where the cost of a round trip comes from decides bounded / unbounded"""
+    t, r, Gram = CG.t, CG.r, G.Gram
+    return [
+        # gain only through a sibling whose token sits two levels down
+        Gram("xy", [("S", [[r("S"), r("A")], [t("x")]]), ("A", [[r("B")]]), ("B", [[t("y")]])]),
+        # the sibling derives only the empty string: no gain, maximum cost('x')
+        Gram("x", [("S", [[r("S"), r("A")], [t("x")]]), ("A", [[r("B")]]), ("B", [[]])]),
+        # a cycle through two rules, the gain is optional
+        Gram("xy", [("S", [[r("A")], [t("x")]]), ("A", [[r("B"), r("S")], [t("x")]]), ("B", [[], [t("y")]])]),
+        # the only growing production needs an unproductive rule: bounded
+        Gram("xy", [("S", [[r("A"), t("y")]]), ("A", [[r("A")], [t("x")], [r("U"), r("A"), t("y")]]), ("U", [[r("U")]])]),
+        # a bounded rule above an unbounded one and beside a bounded one
+        Gram("xy", [("S", [[r("A"), r("B")], [r("B")]]), ("A", [[r("A"), t("x")], []]), ("B", [[r("B")], [t("y"), t("y")]])]),
+    ]
+
+
+def pump_family(rng):
+    """a cycle of rules whose productions carry siblings of different kinds (nullable only, token several levels down,
+    a single token — which may get cost 0 —, unproductive), plus non-recursive alternatives"""
+    t, r, Gram = CG.t, CG.r, G.Gram
+    k = rng.randint(1, 3)
+    names = ["S", "A", "B"][:k]
+    pool = {"N": [[]], "D": [[r("E")]], "Z": [[t("z")]], "U": [[r("U"), t("y")]], "M": [[], [t("y")]]}
+    used = set()
+    rules = []
+    for i, n in enumerate(names):
+        nxt = names[(i + 1) % k]
+        alts = []
+        for _ in range(rng.randint(1, 2)):
+            sib = lambda: [r(x) for x in rng.sample(sorted(pool), rng.choice([0, 0, 1, 1, 2]))]
+            a, b = sib(), sib()
+            used.update(x[1] for x in a + b)
+            alts.append(a + [r(nxt)] + b)
+        if i == k - 1 or rng.random() < 0.5:
+            alts.append([t("x")] * rng.randint(0, 2))
+        if rng.random() < 0.3:
+            alts.append([r(rng.choice(names)), t("y")] if rng.random() < 0.5 else [t("y"), t("x")])
+        rules.append((n, CG._uniq(alts)))
+    for x in sorted(used):
+        rules.append((x, pool[x]))
+    if "D" in used:
+        rules.append(("E", [[t("y")]]))
+    return Gram("xyz", rules)
+
+
 def gen_cases(ctx, n):
     rng = ctx.rng
     cases = []
-    for g in CG.corpus() + G.classic_corpus():
+    for g in CG.corpus() + cost_corpus() + G.classic_corpus():
         cases.append(("corpus", g, {x: 1 for x in g.tokens}))
         cases.append(("corpus", g, CG.costs_for(rng, g)))
     fams = [("random", lambda: G.random_grammar(rng)),
@@ -350,8 +396,9 @@ def gen_cases(ctx, n):
             ("unitcyclic", lambda: CG.unit_cyclic(rng)),
             ("nullbetween", lambda: CG.nullable_between(rng)),
             ("dag", lambda: CG.dag(rng)),
-            ("unreachable", lambda: CG.with_unreachable(rng))]
-    weights = [5, 3, 4, 1, 1, 3, 4, 4, 3]
+            ("unreachable", lambda: CG.with_unreachable(rng)),
+            ("pumpgain", lambda: pump_family(rng))]
+    weights = [5, 3, 4, 1, 1, 3, 4, 4, 3, 4]
     while len(cases) < n:
         name, f = rng.choices(fams, weights)[0]
         g = f()
@@ -364,6 +411,8 @@ def gen_cases(ctx, n):
             for x in list(costs):
                 if rng.random() < 0.4:
                     costs[x] = 0
+        if COSTS_FIXED and name == "pumpgain" and "z" in costs and rng.random() < 0.5:
+            costs["z"] = 0
         cases.append((name, g, costs))
     return cases
 
@@ -785,7 +834,8 @@ def run(ctx):
         ctx.oblige(a not in failed, a)
     ctx.coverage["rule"] = ("grammar families: random (incl. unreachable / unproductive / unit-cyclic rules), reduced random, nullable-heavy, "
                             "expression, LR(1)-not-LALR templates, unit cycles, nullable rules between a rule and what follows it, non-recursive "
-                            "DAGs in shuffled declaration order, added unreachable rules, hand-written corpus; token costs 1..255 (uniform, narrow "
+                            "DAGs in shuffled declaration order, added unreachable rules, rule cycles whose round trip gains cost through siblings of "
+                            "different kinds (nullable only / token levels down / single token / unproductive), hand-written corpus; token costs 1..255 (uniform, narrow "
                             "or wide ranges); every rule x token (FIRST, FOLLOW), every rule pair (has_path), every rule (epsilon, min, max, "
                             "min_sentence, min_sentences); non-trivial = some rule is nullable or recursive; distinct by case line")
     ctx.coverage["exhaustive"] = False
